@@ -66,7 +66,7 @@ Names == <<
   "C09_ModelChangeAuthorised", "C09_PermissionApplied",
   "C10_CompleteByAssignee", "C10_NodeSelfOnly", "C10_CancelByCreator", "C10_PayerConsent", "C10_RenewPayerIsSigner",
   "C11_KeptWhilePaid", "C11_ReleasedAtEnd", "C11_ModelOutlivesShards", "C11_NothingOverdue", "C11_OrderGoesWithModel",
-  "C12_Rescheduled", "C12_StoredOrderUntouched", "C12_ResolvedByBound", "C12_ReplicasAccounted", "C12_MigrationUntouched",
+  "C12_Rescheduled", "C12_StoredOrderUntouched", "C12_ResolvedByBound", "C12_GivenUpInTime", "C12_ReplicasAccounted", "C12_MigrationUntouched",
   "C13_OrderShardsExist", "C13_ShardListedByItsOrder", "C13_CompletedShardScheduled", "C13_AliasBijection", "C13_HandOverHasSource",
   "C14_UsedIsSum", "C14_WorkerIsSum", "C14_ShardPledgedIsSum", "C14_PoolIsSum",
   "C15_Placement",
@@ -120,6 +120,7 @@ Verdict(name, x, g) ==
     [] name = "C12_Rescheduled"          -> V(TRUE, C12_Rescheduled(s))
     [] name = "C12_StoredOrderUntouched" -> V(Kind(x) = "Blocks", C12_StoredOrderUntouched(x))
     [] name = "C12_ResolvedByBound"      -> V(TRUE, C12_ResolvedByBound(s, g))
+    [] name = "C12_GivenUpInTime"        -> V(TRUE, C12_GivenUpInTime(s, g))
     [] name = "C12_ReplicasAccounted"    -> V(TRUE, C12_ReplicasAccounted(s))
     [] name = "C12_MigrationUntouched"   -> V(Kind(x) = "Blocks", C12_MigrationUntouched(x))
     [] name = "C13_OrderShardsExist"     -> V(TRUE, C13_OrderShardsExist(s))
